@@ -7,7 +7,7 @@
     the model, not modelled; that is where the recorded finding D16 lives. *)
 From Coq Require Import QArith List ZArith.
 From Coq Require Import Permutation.
-From IV Require Import QL Ecdf QFacts C16_step C16_lerp C16_interp C16_compose C16_hist C16_sortlike.
+From IV Require Import QL Ecdf QFacts C16_step C16_lerp C16_interp C16_compose C16_hist C16_sortlike C16_xony.
 Import ListNotations.
 Open Scope Q_scope.
 
@@ -131,3 +131,34 @@ Example C16_nonvacuous :
   Qred (ecdf step_function x (QL.qmax x)) = 1 /\ Qred (iecdf linear x (1 # 2)) = 3 # 2 /\
   Qred (qmap step_function inverted_cdf x [10; 20; 30; 40; 50; 60] 2) = 50.
 Proof. cbv zeta. repeat split; try (right; reflexivity); try discriminate; try apply every_iecdf_method_proved; vm_compute; reflexivity. Qed.
+
+(** quantile_map_x_on_y_non_parametically in "normal" mode (the sample mapped through its own ECDF; used by ISIMIP's
+    imputation): the order of the values is kept and equal values have equal images *)
+Theorem C16_x_on_y_keeps_order : forall em im x y i j, proved_ecdf em -> proved_iecdf im -> y <> [] ->
+  (i < length x)%nat -> (j < length x)%nat -> nth i x 0 <= nth j x 0 ->
+  nth i (xony_normal em im x y) 0 <= nth j (xony_normal em im x y) 0.
+Proof. exact xony_order. Qed.
+Print Assumptions C16_x_on_y_keeps_order.
+
+Theorem C16_x_on_y_equal_values_equal_images : forall em im x y i j, proved_ecdf em -> proved_iecdf im -> y <> [] ->
+  (i < length x)%nat -> (j < length x)%nat -> nth i x 0 == nth j x 0 ->
+  nth i (xony_normal em im x y) 0 == nth j (xony_normal em im x y) 0.
+Proof. exact xony_ties. Qed.
+Print Assumptions C16_x_on_y_equal_values_equal_images.
+
+(** ... and in "isimipv3.0" mode (average ranks, then the linear quantile of y): order kept, equal values equal
+    images, images within the range of y *)
+Theorem C16_x_on_y_isimip_keeps_order : forall x y i j, y <> [] -> (i < length x)%nat -> (j < length x)%nat ->
+  nth i x 0 <= nth j x 0 -> nth i (xony_isimip x y) 0 <= nth j (xony_isimip x y) 0.
+Proof. exact xony_isimip_order. Qed.
+Print Assumptions C16_x_on_y_isimip_keeps_order.
+
+Theorem C16_x_on_y_isimip_equal_values_equal_images : forall x y i j, y <> [] -> (i < length x)%nat -> (j < length x)%nat ->
+  nth i x 0 == nth j x 0 -> nth i (xony_isimip x y) 0 == nth j (xony_isimip x y) 0.
+Proof. exact xony_isimip_ties. Qed.
+Print Assumptions C16_x_on_y_isimip_equal_values_equal_images.
+
+Theorem C16_x_on_y_isimip_range : forall x y i, y <> [] -> (i < length x)%nat ->
+  QL.qmin y <= nth i (xony_isimip x y) 0 <= QL.qmax y.
+Proof. exact xony_isimip_range. Qed.
+Print Assumptions C16_x_on_y_isimip_range.
